@@ -787,6 +787,106 @@ fn replay_readfaults(_args: &[String]) -> i32 {
     0
 }
 
+/// C07 probe: `category` -- Category::validate against oracles written out character by character,
+/// on a fixed battery: every string of up to 5 characters over a small alphabet (identifier,
+/// property, case, cabinet), file names built from a base, dots and an extension (cabinet), and
+/// lists of numeric pieces (version, language).  A battery, not a search: used to look for a
+/// concrete failing input when the contract of Category::validate fails.
+fn replay_category(_args: &[String]) -> i32 {
+    use msi::Category;
+    let id_start = |c: char| c.is_ascii_alphabetic() || c == '_';
+    let id_cont = |c: char| c.is_ascii_alphanumeric() || c == '_' || c == '.';
+    let ident = |s: &str| -> bool {
+        let mut it = s.chars();
+        match it.next() { Some(c) if id_start(c) => it.all(id_cont), _ => false }
+    };
+    let property = |s: &str| -> bool { if let Some(rest) = s.strip_prefix('%') { ident(rest) } else { ident(s) } };
+    let cabinet = |s: &str| -> bool {
+        if let Some(rest) = s.strip_prefix('#') { return ident(rest); }
+        let bytes = s.as_bytes();
+        let mut last_dot = None;
+        for (i, b) in bytes.iter().enumerate() { if *b == b'.' { last_dot = Some(i); } }
+        match last_dot {
+            None => !bytes.is_empty() && bytes.len() <= 8,
+            Some(k) => k >= 1 && k <= 8 && bytes.len() - k - 1 <= 3,
+        }
+    };
+    let numbers = |s: &str, sep: char, max_parts: usize| -> bool {
+        let mut parts: Vec<String> = vec![String::new()];
+        for c in s.chars() { if c == sep { parts.push(String::new()); } else { parts.last_mut().unwrap().push(c); } }
+        parts.len() <= max_parts && parts.iter().all(|p| p.parse::<u16>().is_ok())
+    };
+    let check = |cat: Category, s: &str, want: bool| -> bool {
+        let got = std::panic::catch_unwind(|| cat.validate(s));
+        match got {
+            Err(_) => { println!("REPLAY family=category category={cat} string={s:?} verdict=VIOLATED (validate panicked)"); false }
+            Ok(g) if g != want => { println!("REPLAY family=category category={cat} string={s:?} validate={g} documented_grammar={want} verdict=VIOLATED"); false }
+            _ => true,
+        }
+    };
+    // 1. every string of up to 5 characters over a small alphabet
+    let alphabet = ['a', 'Z', '_', '.', '%', '#', '7', '\u{e9}'];
+    let mut strings: Vec<String> = vec![String::new()];
+    let mut frontier: Vec<String> = vec![String::new()];
+    for _ in 0..5 {
+        let mut next = Vec::new();
+        for s in &frontier { for c in alphabet { let mut t = s.clone(); t.push(c); next.push(t); } }
+        strings.extend(next.iter().cloned());
+        frontier = next;
+    }
+    for s in &strings {
+        let ok = check(Category::Identifier, s, ident(s))
+            && check(Category::Property, s, property(s))
+            && check(Category::Cabinet, s, cabinet(s))
+            && check(Category::UpperCase, s, !s.chars().any(|c| c.is_ascii_lowercase()))
+            && check(Category::LowerCase, s, !s.chars().any(|c| c.is_ascii_uppercase()))
+            && check(Category::Text, s, true);
+        if !ok { return 1; }
+    }
+    // 2. cabinet file names: base, extra dotted segments, extension (lengths around the limits; a two-byte character)
+    for base_len in 0..=10usize {
+        for ext_len in 0..=5usize {
+            for mid in ["", ".", ".x", ".xy.z", "\u{e9}"] {
+                for with_ext in [false, true] {
+                    let mut s = "b".repeat(base_len);
+                    s.push_str(mid);
+                    if with_ext { s.push('.'); s.push_str(&"e".repeat(ext_len)); }
+                    if !check(Category::Cabinet, &s, cabinet(&s)) { return 1; }
+                }
+            }
+        }
+    }
+    // 3. version / language: lists of numeric pieces
+    let pieces = ["", "0", "1", "65535", "65536", "+1", "-1", "a", "007"];
+    let mut lists: Vec<Vec<&str>> = vec![vec![]];
+    for _ in 0..5 {
+        let mut next = Vec::new();
+        for l in &lists { if l.len() == lists.last().map_or(0, |x| x.len()) { for p in pieces { let mut t = l.clone(); t.push(p); next.push(t); } } }
+        lists.extend(next);
+    }
+    for l in &lists {
+        if l.is_empty() { continue; }
+        let v = l.join(".");
+        let g = l.join(",");
+        if !check(Category::Version, &v, numbers(&v, '.', 4)) { return 1; }
+        if !check(Category::Language, &g, numbers(&g, ',', usize::MAX)) { return 1; }
+    }
+    // 4. integer text
+    for s in ["", "0", "-32768", "32767", "32768", "-32769", "+5", "--5", "5 ", "2147483647", "2147483648", "-2147483648", "-2147483649", "1e3"] {
+        if !check(Category::Integer, s, s.parse::<i16>().is_ok()) { return 1; }
+        if !check(Category::DoubleInteger, s, s.parse::<i32>().is_ok()) { return 1; }
+    }
+    // 5. GUIDs: a few fixed samples
+    for (s, want) in [("{0000002A-000C-0005-0C03-0938362B0809}", true), ("{0000002a-000c-0005-0c03-0938362b0809}", false),
+                      ("0000002A-000C-0005-0C03-0938362B0809", false), ("{0000002A-000C-0005-0C03-0938362B080}", false),
+                      ("{0000002A-000C-0005-0C03-0938362B0809}}", false), ("{\u{e9}000002A-000C-0005-0C03-0938362B080}", false), ("", false),
+                      ("{000000000000000000000000000000000000}", false)] {
+        if !check(Category::Guid, s, want) { return 1; }
+    }
+    println!("REPLAY family=category verdict=ok (battery found no failing input)");
+    0
+}
+
 fn main() {
     let args: Vec<String> = std::env::args().skip(1).collect();
     if args.is_empty() {
@@ -808,6 +908,7 @@ fn main() {
         "readfaults" => replay_readfaults(&args[1..]),
         "zerorc" => replay_zerorc(&args[1..]),
         "dangling" => replay_dangling(&args[1..]),
+        "category" => replay_category(&args[1..]),
         _ => 2,
     };
     std::process::exit(rc);
